@@ -504,6 +504,27 @@ class Interp:
         if fr["refw"] is None:
             fr["refw"] = self.ref_writes
 
+    def note_continue(self, c, depth, span=None):
+        """`if c { continue }` in a summarised for loop.  Innermost loop: the rest of this iteration happens only under ¬c (dropped when
+        the iteration ends).  The loop around it (`continue 'outer` inside a nested search): this inner loop becomes the search
+        "some element satisfies c", and the rest of the OUTER iteration happens only when none does."""
+        if not self.loops:
+            raise ControlUndecided("continue outside a summarised loop", span)
+        lc = self.loops[-1]
+        full = c
+        for oc in reversed(self.cond_stack[getattr(lc, "cond_base", 0):]):
+            full = cond_and(oc, full)
+        if depth == 0:
+            self.cond_stack.append(c.negate())
+            return
+        if depth == 1 and len(self.loops) >= 2:
+            if not hasattr(lc, "skip_outer"):
+                lc.skip_outer = []
+            lc.skip_outer.append(full)
+            self.cond_stack.append(c.negate())
+            return
+        raise ControlUndecided("continue of a loop further out", span)
+
     def note_early_rel(self, c, value, span=None):
         """Early return under an order relation between index entities (e.g. `if id == 0 { return 1.0 }`): the rest of the function
         is evaluated under the negated relation and the results are joined as guarded terms when the frame is left."""
@@ -933,6 +954,8 @@ class Interp:
         except BreakSignal:
             t_ret = ReturnSignal(BREAK)
             self.breaks.append((c.key(), snapshot(env), self.probe() if self.probe else None))
+        except ContinueSignal as cs:
+            t_ret = ReturnSignal(("continue", cs.depth))
         finally:
             del self.cond_stack[n0:]      # the arm's own condition and whatever early exits inside it left behind
         tstate = snapshot(env)
@@ -946,9 +969,22 @@ class Interp:
             except BreakSignal:
                 e_ret = ReturnSignal(BREAK)
                 self.breaks.append((c.negate().key(), snapshot(env), self.probe() if self.probe else None))
+            except ContinueSignal as cs:
+                e_ret = ReturnSignal(("continue", cs.depth))
             finally:
                 del self.cond_stack[n0:]
         estate = snapshot(env)
+        def is_cont(r_):
+            return r_ is not None and isinstance(r_.value, tuple) and len(r_.value) == 2 and r_.value[0] == "continue"
+        if is_cont(t_ret) or is_cont(e_ret):
+            if is_cont(t_ret) and is_cont(e_ret):
+                raise ContinueSignal(max(t_ret.value[1], e_ret.value[1]))
+            if (t_ret is not None and not is_cont(t_ret)) or (e_ret is not None and not is_cont(e_ret)):
+                raise ControlUndecided("one arm continues the loop, the other leaves it", e.get("span"))
+            cc, depth_, cont_val, state = (c, t_ret.value[1], ev, estate) if is_cont(t_ret) else (c.negate(), e_ret.value[1], tv, tstate)
+            restore(env, state)
+            self.note_continue(cc, depth_, e.get("span"))
+            return cont_val
         if t_ret is not None and e_ret is not None:
             if t_ret.value is BREAK or e_ret.value is BREAK:
                 raise BreakSignal()
@@ -1222,6 +1258,11 @@ class Interp:
     in_transfer = False
 
     def e_continue(self, e, env):
+        lab = e.get("label")
+        if lab is not None and self.loops:
+            for d_, lc in enumerate(reversed(self.loops)):
+                if getattr(lc, "scope", None) == lab and d_ <= 1 and (not self.frames or len(self.loops) - d_ > self.frames[-1]["loops"]):
+                    raise ContinueSignal(d_)
         raise ControlUndecided("continue inside a loop that is summarised, not executed", e.get("span"))
 
     # ---- for loops ------------------------------------------------------------------------------
@@ -1242,6 +1283,7 @@ class Interp:
             raise Undecided("for-loop arms", e.get("span"))
         pat = some[0]["pat"]["subs"][0]["pat"]
         body = some[0]["body"]
+        self.next_loop_scope = loop.get("scope")
         self.iterate(it, lambda elem, benv: (self.bind(pat, elem, benv), self.eval(body, benv)), env, body)
         return UNIT
 
@@ -1253,6 +1295,8 @@ class Interp:
         guards = seq.guards_fn(k) if seq.guards_fn else []
         inner_vars = collect_bound_vars(body_expr) if body_expr is not None else set()
         lc = LoopCtx(k, cls, guards, inner_vars)
+        lc.scope = getattr(self, "next_loop_scope", None)
+        self.next_loop_scope = None
         lc.cond_base = len(self.cond_stack)
         old = dict(self.class_of_index)
         self.class_of_index = dict(old)
@@ -1280,15 +1324,49 @@ class Interp:
             elem = seq.at(k)
             try:
                 run_body(elem, benv)
+            except ContinueSignal as cs:
+                if cs.depth != 0:
+                    # `continue 'outer` from this (inner) loop: a search that, when some element satisfies the condition, skips the rest
+                    # of the OUTER iteration — only the unconditional-at-this-level form reaches here and is outside the model
+                    raise Undecided("unconditional continue of an outer loop")
             except ControlUndecided as cu:
                 raise Undecided("loop body jumps (%s): the loop is not a plain reduction" % cu.what, cu.span)
-            except (ReturnSignal, BreakSignal):
+            except ReturnSignal as rs:
+                # `return CONST` at the end of an iteration whose earlier part `continue`d away under some condition: a search exit
+                # under the conditions that let the iteration get this far
+                conds_here = self.cond_stack[lc.cond_base:]
+                fr_ = self.frames[-1] if self.frames else None
+                if conds_here and isinstance(rs.value, Cond) and rs.value.kind == "const" and fr_ is not None and len(self.loops) == fr_["loops"] + 1:
+                    full = conds_here[0]
+                    for oc in conds_here[1:]:
+                        full = cond_and(full, oc)
+                    if not hasattr(lc, "search_exits"):
+                        lc.search_exits = []
+                    lc.search_exits.append((full, rs.value))
+                else:
+                    raise Undecided("loop body leaves the loop early (return / break): not a plain reduction")
+            except BreakSignal:
                 raise Undecided("loop body leaves the loop early (return / break): not a plain reduction")
         finally:
             self.loops.pop()
             self.class_of_index = old
+            del self.cond_stack[lc.cond_base:]
             for vid, (cur, _ph) in acc_vars.items():
                 env.set(vid, cur)
+        skips = getattr(lc, "skip_outer", None)
+        if skips:
+            if lc.effects or guards or getattr(lc, "search_exits", None):
+                raise Undecided("a loop that continues its outer loop and also has effects / exits")
+            cond = skips[0]
+            for c_ in skips[1:]:
+                cond = cond_or(cond, c_)
+            self.search_counter = getattr(self, "search_counter", 0) + 1
+            dummy = "§c%d" % self.search_counter
+            from .expr import cond_subst
+            q = Cond("key", "∃%s∈%s: (%s)" % (dummy, cls, cond_subst(cond.key(), {k: dummy})), tree=("exists", dummy, cls, _tree_subst(cond.tree, {k: dummy})))
+            # the rest of the enclosing iteration runs only when no element triggered the continue
+            self.cond_stack.append(q.negate())
+            return
         exits = getattr(lc, "search_exits", None)
         if exits:
             if lc.effects or len(set(v_.data for _c, v_ in exits)) != 1 or guards:
@@ -1296,8 +1374,8 @@ class Interp:
             cond = exits[0][0]
             for c_, _v in exits[1:]:
                 cond = cond_or(cond, c_)
-            d_ = getattr(self, "quant_depth", 0)
-            dummy = "§s%d" % d_
+            self.search_counter = getattr(self, "search_counter", 0) + 1
+            dummy = "§s%d" % self.search_counter
             from .expr import cond_subst
             qtree = ("exists", dummy, cls, _tree_subst(cond.tree, {k: dummy}))
             q = Cond("key", "∃%s∈%s: (%s)" % (dummy, cls, cond_subst(cond.key(), {k: dummy})), tree=qtree)
@@ -1590,6 +1668,12 @@ class ReturnSignal(Exception):
 
 class BreakSignal(Exception):
     pass
+
+
+class ContinueSignal(Exception):
+    """`continue` of a summarised for loop: `depth` 0 is the innermost active loop, 1 the loop around it."""
+    def __init__(self, depth):
+        self.depth = depth
 
 
 class NotAPlace(Exception):
